@@ -21,6 +21,14 @@ CLAIMED = {
    text="Names.tla transcribes utils.py name derivation and the conflict-resolution loops (model attributes incl. allOf inheritance and the retry-with-mutation quirk, enum member keys, operation parameters, class/module scope incl. nested inline classes, one tag's operations); TLC enumerates every name (<=3/4 tokens over 14 character-class representatives) and every ordered name set per scope, checks N1 (valid identifier) / N2 (NFKC-injective per scope or error) / N3 (termination) on the model, and every enumerated case is replayed through the real functions and the real parser with a model-independent oracle (isidentifier, not keyword, NFKC-distinct or diagnostic). Every Unicode code point is swept through the real functions in 3 positions; real outputs on longer random names are validated by TLC (NamesTrace.tla).",
    note="Bounded by the token alphabet/lengths for sets of names; exhaustive over single code points at function level. Trusted: CPython isidentifier/keyword, token<->character table (signature coverage is measured each run).",
    technique="TLA+ transcription + TLC exhaustive small-scope enumeration replayed into the real code; trace validation of real outputs"),
+ "C12": dict(engine="pipeline", design="5/C12, 3.5",
+   text="Pipeline.tla: the operational outcome is proved by TLC (all 46,656 documents = all declaration orders) to equal ExpectedClasses/Affected, which do not mention document order, so the parser's result is order-free on the model; Emission.tla states the emission discipline (a set-valued attribute is never emitted unsorted) and TLC validates the census of template loops extracted from the current templates by Jinja2's parser. Diagnostics-free documents of the universe, a rich synthetic document and the repository's documents are generated in fresh interpreters under 4-6 PYTHONHASHSEED values (two with the ruff post-hooks) and under random permutations of components.schemas and paths; oracle = sha256 equality of every file.",
+   note="Seed/permutation comparison is sampled (hash seeds are a finite sample of 2^32). Python-side set iteration outside templates is covered only dynamically.",
+   technique="TLC-checked order-free law + TLC-validated emission-site census + multi-seed / permutation byte comparison"),
+ "C20": dict(engine="pipeline", design="5/C20, 3.5",
+   text="Ops.tla law RefTransparent (declarative outcome invariant under Inline(op); with Containment this transfers to the operational layer) and Pipeline.tla (valid references resolve through the retry rounds in every declaration order, through arrays, unions, aliases and allOf; malformed ones affect exactly Affected). Every operation of the universe with reference sites is generated next to a context operation using the same components in a conflicting way, by reference and with every subset of sites inlined: descriptors compared for all, endpoint modules byte-wise for a stratified sample; all diagnostics-free 3-schema documents must generate without diagnostics with one class per schema; 12 malformed reference strings at 12 site kinds must be diagnosed and leave unrelated modules byte-identical; hook traces validated by PipelineTrace.tla.",
+   note="Exhaustive in the thorough tier inside the universes; quick samples 6,000 operations. Wire behaviour of schema references rides on the codec checks.",
+   technique="TLC model checking of reference transparency + differential replay (by reference vs inline) + trace validation"),
  "C19": dict(engine="fshistory", design="5/C19, 3.7",
    text="FsHistory.tla unfolds each generate command into the real steps (load, validate, mkdir, package, metadata, rmtree+write models, client, rmtree+write api, hooks, exit) over an abstract tree with user files and a sibling; TLC checks Confined, NoClobber(+Step), Converges, NoStale, ExitLaw, RejectedWritesNothing(+Step) and EveryCommandExits on every history of <=2/3 commands over 5 documents x overwrite x fail-on-warning x 3 hook outcomes. A stratified sample of TLC-emitted histories is replayed through the real CLI under all four metadata flavours inside a sentinel-filled sandbox with whole-sandbox byte snapshots (the oracle is the property statement: fresh generation + untouched user files, incl. user files named like another flavour's metadata); the real step events (hooks) are validated against the spec's actions by FsTrace.tla; hostile titles/tags/schema/operation names (separators, dot segments, absolute paths) with a derived output path; Names.tla law N4 on path components.",
    note="TLC exhaustive to the history depth; replay is a stratified sample (quick 140 histories). Convergence only for same names and flavour, as stated.",
